@@ -110,6 +110,7 @@ type obsJ struct {
 
 type caseJ struct {
 	Files  map[string]string `json:"files,omitempty"` // format -> file name the document is written to
+	Before []pkgJ            `json:"exported_before_to_the_same_paths,omitempty"` // a larger inventory written first
 	Stream string  `json:"stream"`
 	Pkgs   []pkgJ  `json:"packages"`
 	Spdx   []obsJ  `json:"spdx"`
@@ -317,6 +318,15 @@ func genCase(r *rand.Rand, types []string, stream string) *caseJ {
 		}
 		c.Pkgs = append(c.Pkgs, j)
 	}
+	if stream == "overwrite" {
+		// the earlier export: this inventory plus several more packages (a strictly longer document in every format)
+		c.Before = append([]pkgJ{}, c.Pkgs...)
+		for k := 3 + r.Intn(6); k > 0; k-- {
+			j := pkgJ{Kind: "fake", Extractor: "os/dpkg", Name: S("earlier-package-with-a-long-name-" + pick(r, text)), Version: "9.9.9", Locations: []S{"var/lib/dpkg/status", "usr/share/doc/earlier"}}
+			j.Purl = genPurl(r, types, false, false)
+			c.Before = append(c.Before, j)
+		}
+	}
 	if stream == "duplicates" && len(c.Pkgs) > 0 {
 		for k := 1 + r.Intn(3); k > 0; k-- {
 			c.Pkgs = append(c.Pkgs, c.Pkgs[r.Intn(len(c.Pkgs))])
@@ -413,6 +423,16 @@ func runCase(c *caseJ, tmp string) {
 	sr := &scalibr.ScanResult{Version: "verif", StartTime: time.Unix(1700000000, 0), EndTime: time.Unix(1700000001, 0),
 		Status: &plugin.ScanStatus{Status: plugin.ScanStatusSucceeded}, Inventory: inventory.Inventory{Packages: pkgs}}
 	c.Spdx, c.Cdx = nil, nil
+	// export history: an earlier, larger inventory was written to the very same paths
+	var before *scalibr.ScanResult
+	if len(c.Before) > 0 {
+		var bp []*extractor.Package
+		for i := range c.Before {
+			bp = append(bp, build(&c.Before[i]))
+		}
+		before = &scalibr.ScanResult{Version: "verif", StartTime: time.Unix(1700000000, 0), EndTime: time.Unix(1700000001, 0),
+			Status: &plugin.ScanStatus{Status: plugin.ScanStatusSucceeded}, Inventory: inventory.Inventory{Packages: bp}}
+	}
 	fileOf := func(format, ext string) string {
 		if n, ok := c.Files[format]; ok && n != "" {
 			return n
@@ -426,6 +446,9 @@ func runCase(c *caseJ, tmp string) {
 		os.RemoveAll(dir)
 		os.MkdirAll(filepath.Dir(filepath.Join(dir, f[1])), 0o755)
 		var doc *spdx.Document
+		if before != nil {
+			safe(func() { bspdx.Write23(converter.ToSPDX23(before, converter.SPDXConfig{}), filepath.Join(dir, f[1]), f[0]) })
+		}
 		if m := safe(func() { doc = converter.ToSPDX23(sr, converter.SPDXConfig{}) }); m != "" {
 			o.Err = "ToSPDX23 " + m
 		} else if err := bspdx.Write23(doc, filepath.Join(dir, f[1]), f[0]); err != nil {
@@ -449,6 +472,11 @@ func runCase(c *caseJ, tmp string) {
 		os.RemoveAll(dir)
 		os.MkdirAll(filepath.Dir(filepath.Join(dir, f[1])), 0o755)
 		var bom *cyclonedx.BOM
+		if before != nil {
+			safe(func() {
+				bcdx.Write(converter.ToCDX(before, converter.CDXConfig{ComponentName: "verif", ComponentVersion: "0"}), filepath.Join(dir, f[1]), f[0])
+			})
+		}
 		if m := safe(func() { bom = converter.ToCDX(sr, converter.CDXConfig{ComponentName: "verif", ComponentVersion: "0"}) }); m != "" {
 			o.Err = "ToCDX " + m
 		} else if err := bcdx.Write(bom, filepath.Join(dir, f[1]), f[0]); err != nil {
@@ -722,7 +750,7 @@ func main() {
 		cases = append(cases, c)
 	}
 	for i := 0; i < *n; i++ {
-		stream := []string{"well-formed", "well-formed", "well-formed", "well-formed", "duplicates", "hostile-text", "malformed", "well-formed-no-snap"}[i%8]
+		stream := []string{"well-formed", "well-formed", "overwrite", "well-formed", "duplicates", "hostile-text", "malformed", "well-formed-no-snap"}[i%8]
 		ts := types
 		if stream == "well-formed-no-snap" || stream == "duplicates" {
 			ts = nil
